@@ -45,7 +45,15 @@ class Arm:
         # the arity of the path: what its tests of expr.vars.size() against constants say (switch arms, an if chain, early returns - one thing)
         SIZE = lambda t: isinstance(t, tuple) and t[0] == 'mcall' and t[1].endswith('::size') and t[2] == ('.', 'expr', 'vars')
         L = path_literals(self.p, cn)
+        EMPTY = lambda t: isinstance(t, tuple) and len(t) == 3 and t[0] == 'mcall' and t[1].endswith('::empty') and t[2] == ('.', 'expr', 'vars')
         for c in L or ():
+            if c[0] == 'if' and EMPTY(c[1]):
+                # `expr.vars.size() == 0` / case 0 is spelled `expr.vars.empty()`
+                if c[2]:
+                    self.arity = 0
+                elif self.arity is None:
+                    self.arity = 'default'
+                continue
             if c[0] == 'if':
                 ek = eq_test(c[1])
                 if ek is not None and SIZE(ek[0]):
@@ -63,7 +71,7 @@ class Arm:
                 t = cn(node)
                 tt, _pp = norm_literal(t, pol)
                 ek = eq_test(tt)
-                if ek is not None and SIZE(ek[0]):
+                if (ek is not None and SIZE(ek[0])) or EMPTY(tt):
                     continue            # a test of the arity: read above
                 if isinstance(t, tuple) and t[0] in ('<', '<=') and len(t) == 3:
                     a, b = t[1], t[2]
@@ -94,6 +102,8 @@ class Arm:
                         self.normalised = True
                     else:
                         self.problems.append('expr re-assigned to something else than expr / leading coefficient: ' + show(rhs))
+            elif k in ('UnaryOperator', 'CXXOperatorCallExpr') and s.get('op') == '++' and it_idx is not None and cn(s) in (('++', self.itname), ('post++', self.itname)):
+                it_idx += 1         # `++it;` as a statement of its own (`*it++` split in two)
             elif k == 'DeclStmt':
                 for d in s.get('c') or ():
                     if d.get('k') != 'VarDecl':
